@@ -486,8 +486,10 @@ def run(chk):
     t0 = time.time()
     idx = [n for n, line in enumerate(impl) if line and "\t" in line and "ok|?" not in line.split("\t")[0]]
     items = [(D.coq_case(cases[n]["inputs"]), impl[n].split("\t")[0]) for n in idx]
-    shard = max(20, int(math.ceil(len(items) / float(common.NPROC))))
-    raw_bad = common.coq_mismatches(IMPORTS, items, "c02", shard_size=shard)
+    # shards of at most 250 cases: a shard must finish within its time-out also on a heavily loaded machine
+    shard = min(250, max(20, int(math.ceil(len(items) / float(common.NPROC)))))
+    raw_bad = common.coq_mismatches(IMPORTS, items, "c02", shard_size=shard,
+                                    timeout=900 if chk.tier == "quick" else 3000)
     unsupported = {idx[k]: m for k, m in raw_bad.items() if "MODEL-UNSUPPORTED" in m}
     bad = {idx[k]: m for k, m in raw_bad.items() if "MODEL-UNSUPPORTED" not in m}
     T["model_s"] = round(time.time() - t0, 1)
